@@ -214,3 +214,15 @@ Example bridge_computes :
   non_numeric [ (nm "String", TScalar KString); (nm "Color", TEnum [ (nm "RED", GInt 1) ]) ] = true /\
   obj_free (LList [LEnum (nm "RED"); LString (nm "x")]) = true.
 Proof. repeat split; vm_compute; reflexivity. Qed.
+
+(** the document-level bridge computes: C04's ValidateDocument model on the translated request;
+    query Q($s: Int = 1) { f(x: $s) } with x: Int! is accepted, with $s: Int (no default) it is not *)
+Example document_bridge_computes :
+  let argdefs := one_arg (StNonNull (StNamed (nm "Int"))) in
+  let args := [ (nm "x", LVar (nm "s")) ] in
+  c04_document_accepts Eint true None argdefs (one_var (StNamed (nm "Int")) (Some (LInt 1))) args = true /\
+  static_ok all_fixed Eint dtex true argdefs (one_var (StNamed (nm "Int")) (Some (LInt 1))) args = true /\
+  c04_document_accepts Eint true None argdefs (one_var (StNamed (nm "Int")) None) args = false /\
+  static_ok all_fixed Eint dtex true argdefs (one_var (StNamed (nm "Int")) None) args = false /\
+  bridgeable Eint = true /\ no_float Eint = true.
+Proof. cbv zeta. repeat split; vm_compute; reflexivity. Qed.
